@@ -62,7 +62,7 @@ type statusProp struct {
 	checkTO  bool // C06
 	lastRaw  map[string][]byte
 	// non-triviality
-	eventAfterFinal, receiptAtExpiry, nearExpiry, sharedExpiry, restartInWindow, reachedFinal, expired bool
+	eventAfterFinal, receiptAtExpiry, nearExpiry, sharedExpiry, restartInWindow, reachedFinal, expired, burst bool
 }
 
 func (p *statusProp) afterBlock(b *ibtpBlock) {
@@ -217,6 +217,43 @@ func statusProperty(prop string) func(t *rapid.T) {
 				s.addReceipt(pi, idx, drawTyp())
 			},
 			"transfer": func(t *rapid.T) { s.addTransfer() },
+			// the ordinary shape of real traffic: several requests with the same timeout setting in one block, their
+			// receipts together in a later block before the expiry, then the chain passes the common expiry height
+			"burst": func(t *rapid.T) {
+				if len(s.cur) > 0 {
+					p.afterBlock(s.seal())
+				}
+				n := rapid.IntRange(2, 4).Draw(t, "burstN")
+				T := rapid.SampledFrom([]int64{2, 3, 3, 5}).Draw(t, "burstT")
+				var pis []int
+				for i := 0; i < n; i++ {
+					pi := rapid.IntRange(0, len(s.pairs)-1).Draw(t, "pair")
+					req, _ := s.countersNow(pi)
+					s.addRequest(pi, req+1, T)
+					pis = append(pis, pi)
+				}
+				p.afterBlock(s.seal())
+				gap := rapid.IntRange(0, int(T)-2).Draw(t, "burstGap")
+				for i := 0; i < gap; i++ {
+					p.afterBlock(s.seal())
+				}
+				done := map[int]bool{}
+				for _, pi := range pis {
+					if done[pi] {
+						continue
+					}
+					done[pi] = true
+					req, rcp := s.countersNow(pi)
+					for idx := rcp + 1; idx <= req && idx <= rcp+6; idx++ {
+						s.addReceipt(pi, idx, drawTyp())
+					}
+				}
+				p.afterBlock(s.seal())
+				for i := 0; i < int(T); i++ {
+					p.afterBlock(s.seal())
+				}
+				p.burst = true
+			},
 			"seal": func(t *rapid.T) {
 				p.afterBlock(s.seal())
 			},
@@ -263,6 +300,7 @@ func statusProperty(prop string) func(t *rapid.T) {
 		add(p.restartInWindow, "restart-inside-(H,H+T)")
 		add(p.reachedFinal, "reached-final")
 		add(p.expired, "expired")
+		add(p.burst, "burst-same-timeout-receipts-in-one-block")
 		nt := ""
 		if prop == "C04" {
 			if (p.reachedFinal && p.eventAfterFinal) || p.receiptAtExpiry {
